@@ -106,6 +106,11 @@ func And(a, b bool) bool { return a && b }
 func Or(a, b bool) bool  { return a || b }
 func Not(a bool) bool    { return !a }
 
+// StubLog returns what the interpreter's environment stubs recorded on this
+// path (os.Open, http.Redirect, http.ServeContent arguments). Natively there
+// are no stubs: nil.
+func StubLog() []string { return nil }
+
 func Ite(c bool, a, b int) int {
 	if c {
 		return a
